@@ -498,6 +498,9 @@ def _run_job(prop_id, sub, tier, piece, npieces, seed0):
                     except Violation as e:
                         st.failure = (case, str(e))
                         raise
+                    except Exception as e:  # harness-side exception: remembered in case it turns out not to be reproducible
+                        st.last_error = (case, "".join(traceback.format_exception(type(e), e, e.__traceback__))[-3000:])
+                        raise
                     finally:
                         st.end()
 
@@ -534,7 +537,21 @@ def _run_job(prop_id, sub, tier, piece, npieces, seed0):
             else:
                 st.failure = (st.failure[0], "[failed, passed on Hypothesis' re-execution, failed again on replay] " + again)
         else:
-            harness = "Flaky: " + str(e)[:500]
+            # an exception that is neither a Violation nor reproducible by Hypothesis' own re-execution: run the case three more times;
+            # only a failure that shows up again is reported (as a harness error, with its traceback)
+            last = getattr(st, "last_error", None)
+            harness = "Flaky: " + str(e)[:500] if last is None else None
+            if last is not None:
+                for _ in range(3):
+                    try:
+                        sub.replay(last[0])
+                    except BaseException as e2:  # noqa
+                        harness = "Flaky, raised again on replay: " + "".join(traceback.format_exception(type(e2), e2, e2.__traceback__))[-2000:]
+                        break
+                if harness is None:
+                    st.label("flaky_harness_exception_not_reproduced")
+                    sys.stderr.write("[pbv] %s/%s: an exception was raised once and not again in 4 re-executions of the same case:\n%s\n"
+                                     % (prop_id, sub.name, last[1]))
     except BaseException as e:  # noqa
         if isinstance(e, KeyboardInterrupt):
             raise
